@@ -105,12 +105,17 @@ class _G:
             return [['T', 'A', [['.', name]]]]
         if r < 0.8:
             return [['Val', self.token()], ['T', 'A', [['.', name]]]]
-        if r < 0.9:
+        if r < 0.86:
             gn = rng.choice(GNAMES)
             self.seen_globals.append(gn)
             return [['T', 'A', [['.', 'globals'], ['.', gn]]]]
-        n2 = rng.choice(NAMES)
+        n2 = rng.choice([x for x in NAMES if x != name])
         self.seen_names.append(n2)
+        if rng.random() < 0.5:
+            # the later keyword's value READS the name the earlier keyword binds: it must see the outer
+            # binding (or none), never its sibling's
+            return [['T', 'S', [['(', [[], {name: {'t': 'spec', 'v': ['Val', self.token()]},
+                                           n2: {'t': 'spec', 'v': ['Coalesce', [['T', 'S', [['.', name]]]], {'default': EMPTY}]}}]]]]]
         return [['T', 'S', [['(', [[], {name: self.token(), n2: {'t': 'spec', 'v': ['T', 'T', []]}}]]]]]
 
     def failing(self):
@@ -219,6 +224,13 @@ class _G:
                                               [['M', None], ['tuple', [['T', 'T', [['-', 1]]], ['Ref', name]]]]]]]]
                 return ['tuple', [['Val', rng.randint(0, 3)], ['Ref', name, body]]]
             # nearest enclosing definition: inner redefinition shadows inside its own subtree only
+            if r < 0.8:
+                tok_in = self.token()
+                inner_rec = ['Ref', name, ['Switch', [[['M', 'M', '==', 0], ['Val', tok_in]],
+                                                       [['M', None], ['tuple', [['T', 'T', [['-', 1]]], ['Ref', name]]]]]]]
+                outer_body = ['dict', [['inner', ['tuple', [['Val', rng.randint(0, 2)], inner_rec]]],
+                                       ['obs', self.observe(d)], ['val', ['Val', self.token()]]]]
+                return ['Ref', name, outer_body]
             inner = ['Ref', name, ['dict', [['inner_use', ['Coalesce', [['Val', self.token()]], {}]]]]]
             outer_body = ['dict', [['redef', inner], ['obs', self.observe(d)], ['val', ['Val', self.token()]]]]
             return ['Ref', name, outer_body]
